@@ -958,6 +958,74 @@ func (g *gen) systematic(i int) *Node {
 	return nil
 }
 
+// matcherProbe: a selector with two or three matchers on different labels of which one is a
+// regular expression whose anchoring decides the answer - a proper prefix, suffix or inner
+// part of a stored value, alone or in an alternation: PromQL matches the whole value, so
+// `job=~"ap"` selects nothing where an unanchored match would select job="api". Selectors with
+// several matchers are resolved by another path of the series index than single ones.
+func (g *gen) matcherProbe(i int) *Node {
+	m, kd := g.metric()
+	n := &Node{Kind: "sel", Metric: m, MKind: kd}
+	lv := g.set.labelVals[m]
+	labels := make([]string, 0, len(lv))
+	for k, vs := range lv {
+		if k != labelAbsentKey && len(vs) > 0 {
+			labels = append(labels, k)
+		}
+	}
+	sort.Strings(labels)
+	if len(labels) == 0 {
+		return g.sel(m, kd, "=~")
+	}
+	g.rng.Shuffle(len(labels), func(a, b int) { labels[a], labels[b] = labels[b], labels[a] })
+	l := labels[0]
+	x := pick(g, lv[l])
+	var re string
+	switch k := i % 6; {
+	case k == 0 && len(x) > 1:
+		re = x[:len(x)-1] // proper prefix
+	case k == 1 && len(x) > 1:
+		re = x[1:] // proper suffix
+	case k == 2 && len(x) > 2:
+		re = x[1 : len(x)-1] // inner part
+	case k == 3 && len(x) > 1:
+		re = x[:1] + "|zzz" // prefix in an alternation
+	case k == 4:
+		re = x + "|" + x[:1] // whole value or its first character
+	default:
+		re = x[:1] + "." // first character and one more
+	}
+	rm := Matcher{Label: l, Op: []string{"=~", "!~"}[(i/6)%2], Value: re}
+	g.set.classify(m, &rm)
+	n.Matchers = append(n.Matchers, rm)
+	for _, l2 := range labels[1:] {
+		if len(n.Matchers) >= 2+i%2 {
+			break
+		}
+		var om Matcher
+		switch g.rng.IntN(4) {
+		case 0:
+			om = Matcher{Label: l2, Op: "!=", Value: pick(g, lv[l2])}
+		case 1:
+			om = Matcher{Label: l2, Op: "=~", Value: ".+"}
+		default:
+			om = Matcher{Label: l2, Op: "=", Value: pick(g, lv[l2])}
+		}
+		g.set.classify(m, &om)
+		n.Matchers = append(n.Matchers, om)
+	}
+	if len(n.Matchers) < 2 {
+		// a family with one label: pair the regex with a matcher on a label nobody has
+		om := Matcher{Label: labelAbsentKey, Op: "=", Value: ""}
+		g.set.classify(m, &om)
+		n.Matchers = append(n.Matchers, om)
+	}
+	if i%3 == 0 {
+		return g.agg(pick(g, []string{"sum", "count", "max"}), "by", n)
+	}
+	return n
+}
+
 // edgeProbe: a range function over ONE series (selected by all of its labels) evaluated
 // around an edge of that series - its first sample, the first sample after a gap longer
 // than the look-back window, a staleness marker, its last sample - so that the windows
